@@ -2,7 +2,7 @@
 extern "C" {
 #include "verif_chain.h"
 const CBlockIndex* g_tip; const CBlockIndex* g_final_most_work; int g_steps, g_fmw_calls; const CBlockIndex* g_last_fmw;
-const CBlockIndex* FindMostWorkChain_stub(void); bool ActivateBestChainStep_stub(const CBlockIndex*, bool*); bool ReachedTarget_stub(void); bool WorkComparator_stub(const CBlockIndex*, const CBlockIndex*);
+const CBlockIndex* FindMostWorkChain_stub(void); typedef struct { size_t n; } ConnectedList; bool ActivateBestChainStep_stub(const CBlockIndex*, bool*, ConnectedList*); bool ReachedTarget_stub(void); bool WorkComparator_stub(const CBlockIndex*, const CBlockIndex*);
 #define LOOP_ROUND
 #include "slices.h"
 }
